@@ -23,6 +23,21 @@ from amr_kitchen.chk2plt import chk2plt             # noqa: E402
 from harness import gen, genchk, diskimg, oracle     # noqa: E402
 from harness.props import c01, c06, c14, c17          # noqa: E402
 
+# a schedule the operating system may choose at any time, forced for the whole scenario: the task-feeding thread of every
+# process pool is descheduled between handing out its last task and marking the end of the tasks (results can all be back
+# before the mark - a pool that is dropped at that moment dead-locks)
+import multiprocessing.pool as _mpp               # noqa: E402
+import time as _time                              # noqa: E402
+_set_length = _mpp.IMapIterator._set_length
+
+
+def _late_set_length(self, length):
+    _time.sleep(0.2)
+    return _set_length(self, length)
+
+
+_mpp.IMapIterator._set_length = _late_set_length
+
 bad = []
 rng = random.Random(seed)
 runs = [os.path.join(root, 'runA'), os.path.join(root, 'runB')]
